@@ -234,7 +234,7 @@ class SlotFlow:
         self.fx, self.slot, self.classes = fx, slot, set(classes)
         self.exceptions = set(exceptions)
         self.ent = 'field:' + slot
-        self.fns = [f for f in fx.repo_functions() if f.cls in self.classes and f.cfg is not None and f.kind != 'lambda']
+        self.fns = [f for f in fx.repo_functions(raw=True) if f.cls in self.classes and f.cfg is not None and f.kind != 'lambda']     # own callee summaries: as written
         self.by_usr = {}
         for f in self.fns:
             self.by_usr.setdefault(f.usr, f)
